@@ -121,6 +121,8 @@ def detect(patch, props, stages="native", tier="quick", seed="1"):
         sh("git checkout -- .", cwd=REPO)
         # ... and be silent on the restored tree
         for p, keep in res.pop("_replays", []):
+            if os.environ.get("MUT_SKIP_RESTORED") == "1":
+                continue
             env = dict(os.environ)
             if stages:
                 env["VERIF_STAGES"] = stages
